@@ -42,6 +42,12 @@ def handle (verb : String) (args : List String) : Option String :=
     let ws ← wordsOf argv
     pure (match verdict (extOf e) ws with
       | .accept => "run" | .help => "help" | .reject => "reject-clean" | .unmodelled => "unmodelled")
+  | "cmdparse", [ext, argv] => do
+    -- parse_args alone: the verdict without the run
+    let e ← parseExt ext
+    let ws ← wordsOf argv
+    pure (match verdict (extOf e) ws with
+      | .accept => "run" | .help => "help" | .reject => "reject-clean" | .unmodelled => "unmodelled")
   | "cmdbin", [_] => some "unmodelled"
   | _, _ => none
 
@@ -50,6 +56,13 @@ def handle (verb : String) (args : List String) : Option String :=
 def predC11 (req obs : List String) : Option Bool :=
   match req, obs with
   | ["cmdline", ext, argv], [o] => do
+    let e ← parseExt ext
+    let ws ← wordsOf argv
+    let ordinary := o == "run" || o == "help" || o == "reject-clean"
+    pure (ordinary && (match FuModel.Spec.CmdlineRef.sentence (extOf e) ws with
+      | some false => o == "reject-clean"
+      | _ => true))
+  | ["cmdparse", ext, argv], [o] => do
     let e ← parseExt ext
     let ws ← wordsOf argv
     let ordinary := o == "run" || o == "help" || o == "reject-clean"
